@@ -47,9 +47,34 @@ def build_circuit(n_e, n_p, n_c, program):
 def edit_circuit(circuit, rng):
     """Apply one edit that creates nodes in the MIDDLE of a wire (node ids are then no longer in circuit order and the
     circuit is no longer what a sequence of add() calls gives): group / unwrap rewrites or 1-3 insert_at of a one-qubit
-    gate on a random quantum edge.  Returns the name of the edit; callers project the circuit AFTER the edit."""
-    how = rng.choice(["group", "unwrap", "insert", "insert"])
-    if how == "group":
+    gate on a random quantum edge, or 1-2 removals.  Returns the name of the edit; callers project the circuit AFTER it."""
+    how = rng.choice(["group", "unwrap", "insert", "insert", "remove", "remove", "replace", "replace"])
+    try:                                  # the circuit has been looked at before it is edited (anything it remembers is in place)
+        circuit.sequence()
+        circuit.sequence(unwrapped=True)
+        _ = circuit.depth
+    except Exception:
+        pass
+    if how == "replace":
+        from graphiq.circuit import ops as gops
+        cand = [n for n in circuit.dag.nodes if len(circuit.dag.nodes[n]["op"].q_registers) == 1
+                and not isinstance(circuit.dag.nodes[n]["op"], gops.InputOutputOperationBase)
+                and type(circuit.dag.nodes[n]["op"]).__name__ != "MeasurementZ"]
+        for n0 in rng.sample(cand, min(len(cand), rng.randint(1, 2))):
+            old = circuit.dag.nodes[n0]["op"]
+            reg = [[old.q_registers_type[0], old.q_registers[0]]]
+            if rng.random() < 0.5:
+                spec = {"k": "OneQubitGateWrapper", "r": reg, "c": None, "w": rng.choice(library_wrappers())}
+            else:
+                spec = {"k": rng.choice([k for k in ONEQ if k != type(old).__name__]), "r": reg, "c": None}
+            circuit.replace_op(n0, build_op(spec))
+    elif how == "remove":
+        from graphiq.circuit import ops as gops
+        for _ in range(rng.randint(1, 2)):
+            cand = [n for n in circuit.dag.nodes if not isinstance(circuit.dag.nodes[n]["op"], gops.InputOutputOperationBase)]
+            if cand:
+                circuit.remove_op(rng.choice(cand))
+    elif how == "group":
         circuit.group_one_qubit_gates()
     elif how == "unwrap":
         circuit.unwrap_nodes()
